@@ -72,7 +72,7 @@ class SimCallback(object):
 
 
 class Slot(object):
-    __slots__ = ('obj', 'token', 'pos', 'alive', 'origin')
+    __slots__ = ('obj', 'token', 'pos', 'alive', 'origin', 'tainted')
 
     def __init__(self, obj, token, pos, origin):
         self.obj = obj
@@ -80,6 +80,7 @@ class Slot(object):
         self.pos = pos
         self.alive = True
         self.origin = origin
+        self.tainted = False
 
 
 class Store(object):
@@ -198,6 +199,11 @@ class World(object):
             # written) object are off limits too, the library would deep-copy that object
             bo = [self.slots[i].obj for i in busy]
             cand = [i for i in cand if not any(self.reg_reaches(self.slots[i].obj, b) for b in bo)]
+        bad = [s.obj for s in self.slots if s.tainted]
+        if bad:
+            # an abandoned (aborted in place) object may still sit in somebody's config as a result
+            # register or template; operations that would go through it are not generated
+            cand = [i for i in cand if not any(self.reg_reaches(self.slots[i].obj, b) for b in bad)]
         if not cand:
             raise Skip('no slot')
         c = cand[r % len(cand)]
@@ -274,10 +280,19 @@ class World(object):
                 cfg = self.slots[i].obj.config
                 for f in REG_FIELDS:
                     r = getattr(cfg, '_' + f, None)
-                    if isinstance(r, Fxp) and self.slot_of(r) is None and len(self.live()) < MAX_SLOTS:
-                        self.add_slot(r, origin='register-copy')
-                        self.bump('adopted_register')
-                        changed = True
+                    if isinstance(r, Fxp) and self.slot_of(r) is None:
+                        k = self.slot_any(r)
+                        if k is not None:
+                            # dropped by its owner but still reachable as a register: it lives on
+                            # (unless it was abandoned after an aborted in-place operation)
+                            if not self.slots[k].tainted:
+                                self.slots[k].alive = True
+                                self.bump('revived_register')
+                                changed = True
+                        elif len(self.live()) < MAX_SLOTS:
+                            self.add_slot(r, origin='register-copy')
+                            self.bump('adopted_register')
+                            changed = True
 
     # ------------------------------------------------------------------ snapshots
     def snap_obj(self, obj):
@@ -400,6 +415,7 @@ class World(object):
             if self.slots[st.dest].alive:
                 self.kill(st.dest)
                 self.bump('abandoned_dest')
+            self.slots[st.dest].tainted = True
         self.log.append(self.log_entry(st))
         return st
 
@@ -465,6 +481,11 @@ class World(object):
             st.pure = True
             return None
         k = self.slot_of(reg_obj)
+        if k is None and self.slot_any(reg_obj) is not None:
+            k = self.slot_any(reg_obj)
+            if self.slots[k].tainted:
+                raise Skip('abandoned register')
+            self.slots[k].alive = True
         if k is None:
             if len(self.live()) >= MAX_SLOTS:
                 raise Skip('register not tracked')
